@@ -1,4 +1,5 @@
 import Sekai.Model.Perm
+import Sekai.Model.PermGenesis
 /-! line protocol for the permission model (domain `perm`) -/
 namespace Sekai.Driver.Perm
 open Sekai.Perm Sekai.Util
@@ -20,6 +21,12 @@ def runOp (d : D) (op : Op) : D × String :=
 def step (d : D) (toks : List String) : D × String :=
   match toks with
   | ["reset"] => ({}, "ok")
+  | ["reimport", accs, roles] =>
+    -- gov ExportGenesis over the stored actors / roles, then InitGenesis of the exported state (PermGenesis, as coded:
+    -- role blacklists are not replayed)
+    match natList? accs, natList? roles with
+    | some accs, some roles => ({ d with s := Sekai.PermGenesis.init (Sekai.PermGenesis.exportGen accs roles d.s) }, "ok")
+    | _, _ => (d, "bad-op")
   | ["save"] => ({ d with saved := d.s }, "ok")
   | ["restore"] => ({ d with s := d.saved }, "ok")
   | [op, x, y] =>
